@@ -39,7 +39,9 @@ _MUTATING = ("update", "append", "extend", "add", "setdefault", "insert", "disca
 _PURE_METHODS = {
     str: {"join", "lower", "upper", "encode", "format", "split", "strip", "lstrip", "rstrip",
           "startswith", "endswith", "replace", "translate", "isdigit", "isalpha", "title",
-          "find", "index", "count", "capitalize", "islower", "isupper", "isalnum", "isspace"},
+          "find", "index", "count", "capitalize", "islower", "isupper", "isalnum", "isspace", "rfind", "rindex",
+          "partition", "rpartition", "rsplit", "splitlines", "zfill", "ljust", "rjust", "center", "swapcase", "casefold",
+          "isascii", "isdecimal", "isnumeric", "isidentifier", "expandtabs", "removeprefix", "removesuffix"},
     bytes: {"decode", "lower", "upper", "join", "split", "strip", "startswith", "endswith"},
     bytearray: {"decode", "lower", "upper", "startswith", "endswith"},
     dict: {"items", "keys", "values", "get", "copy"},
